@@ -28,6 +28,8 @@ rule("C17.c", "original future costs and every sample are divided by the same (n
 rule("C17.d", "b and cType are repeated nS + 1 times and A is the original plus nS stacked blocks", floor=3)
 rule("C17.k", "make_slp: every restriction row is repeated for every sample - the present and future parts that make up a sample block are "
               "column splits of A only; rows are left out at most where a row has no entry on future variables (counted, not summed)", floor=2)
+rule("C17.l", "make_slp: the scenarios are the user's samples, one to one - the number of samples and the list of cost samples that "
+              "is appended are the whole list (or its image under create_cost_samples), never a selection (no de-duplication, filter, subset)", floor=1)
 rule("C17.f", "robust target: sample constraints, recomputed value and plain objective use the same sign of c", floor=3, props=["C17", "C03"])
 
 # confirmed exception (one line of reason)
@@ -54,7 +56,7 @@ def _fresh_frames(fn):
     return out
 
 
-@analysis("slp", ["C07.e", "C17.b", "C17.c", "C17.d", "C17.f", "C17.h", "C17.j", "C17.k"])
+@analysis("slp", ["C07.e", "C17.b", "C17.c", "C17.d", "C17.f", "C17.h", "C17.j", "C17.k", "C17.l"])
 def run(ctx):
     p = ctx.p
     # ================================================================= C07.e
@@ -177,10 +179,74 @@ def run(ctx):
                     (au.terminal(n.left.value) == "c" or isinstance(n.left.value, ast.Name)):
                 divs.append(n)
     n_samples = None
+    sample_param = next((q.name for q in slp.params if q.name == "samples"), None)
+    ctx.require(sample_param is not None, "make_slp has no parameter `samples`", rules=["C17.c", "C17.d", "C17.l"])
+
+    FILTERS = ("unique", "set", "frozenset", "drop_duplicates", "fromkeys", "filter", "compress", "delete", "sample", "choice")
+
+    def image(e, at, depth=0):
+        """('same' | 'filtered' | 'unknown', offending node): is `e` the user's sample list or its one-to-one image
+        (create_cost_samples over it), or a selection from it?"""
+        if isinstance(e, ast.Name) and e.id == sample_param and not [d for d in ff.defs(e.id, at) if d.kind != "param"]:
+            return "same", None
+        if isinstance(e, ast.Call) and au.method_name(e) == "create_cost_samples":
+            a = au.arg_or_kw(e, 0, "price_samples")
+            return image(a, at, depth + 1) if a is not None else ("unknown", e)
+        if isinstance(e, ast.Call) and au.method_name(e) in ("list", "tuple", "deepcopy", "copy") and e.args:
+            return image(e.args[0], at, depth + 1)
+        if isinstance(e, ast.Name) and depth < 6:
+            ds = list(ff.defs(e.id, at))
+            if not ds:
+                return "unknown", e
+            worst = ("same", None)
+            for d in ds:
+                if d.kind != "assign" or d.value is None or d.index not in (None, ()):
+                    return "unknown", d.node
+                k = image(d.value, d.node, depth + 1)
+                if k[0] == "filtered":
+                    return k
+                if k[0] == "unknown":
+                    worst = k
+            return worst
+        if isinstance(e, (ast.ListComp, ast.GeneratorExp)):
+            src_ok = [image(g.iter, at, depth + 1)[0] for g in e.generators]
+            sel = any(g.ifs for g in e.generators) or any(
+                isinstance(g.iter, ast.Call) and au.method_name(g.iter) in ("sort", "unique", "nonzero", "where", "flatnonzero") for g in e.generators) \
+                or (isinstance(e.elt, ast.Subscript) and sample_param is not None and any(
+                    isinstance(x, ast.Name) and image(x, at, depth + 1)[0] in ("same", "filtered") for x in au.walk_local(e.elt.value)) and "same" not in src_ok)
+            if sel:
+                return "filtered", e
+            return ("same", None) if src_ok and all(k == "same" for k in src_ok) and not isinstance(e.elt, ast.Subscript) else ("unknown", e)
+        if isinstance(e, ast.Subscript):
+            k = image(e.value, at, depth + 1)
+            return ("filtered", e) if k[0] in ("same", "filtered") else ("unknown", e)
+        if isinstance(e, ast.Call) and au.method_name(e) in FILTERS:
+            return "filtered", e
+        return "unknown", e
+
+    ff = ctx.flow(slp)
     for st in au.walk_stmts(slp.body):
         if isinstance(st, ast.Assign) and isinstance(st.value, ast.Call) and au.method_name(st.value) == "len" and st.value.args and \
-                au.U(st.value.args[0]) == "samples" and isinstance(st.targets[0], ast.Name):
-            n_samples = st.targets[0].id
+                isinstance(st.targets[0], ast.Name) and isinstance(st.value.args[0], ast.Name):
+            k, bad = image(st.value.args[0], st)
+            if au.U(st.value.args[0]) == sample_param or k in ("same", "filtered"):
+                n_samples = st.targets[0].id
+                ctx.ob("C17.l", slp, "number of samples %s" % au.short(st, 50), k == "same" if k != "unknown" else None,
+                       "the number of scenarios is counted on a *selection* of the samples (%s): the SLP maximises the mean over the original "
+                       "problem and the samples - every sample the user gives has weight 1 / (number of samples + 1). Dropping samples (e.g. "
+                       "identical ones) changes the weights: the stochastic optimum is no longer below the mean of the per-scenario optima"
+                       % au.short(bad, 70) if bad is not None else "", node=st, key="number of samples is counted on the user's list")
+    for lp in [s0 for s0 in au.walk_stmts(slp.body) if isinstance(s0, ast.For)]:
+        if not any(isinstance(x, ast.BinOp) and isinstance(x.op, ast.Div) and isinstance(x.left, ast.Subscript) for s2 in au.walk_stmts(lp.body) for x in au.walk_own(s2)):
+            continue
+        if isinstance(lp.iter, ast.Call) and au.method_name(lp.iter) in ("range", "enumerate"):
+            continue
+        k, bad = image(lp.iter, lp)
+        ctx.ob("C17.l", slp, "cost samples appended in %s" % au.short(lp, 40).split(":")[0], k == "same" if k != "unknown" else None,
+               "the loop that appends one block of future costs per scenario runs over a *selection* of the samples (%s): every sample the user "
+               "gives is a scenario of weight 1 / (number of samples + 1); with identical samples removed the mean is taken over another "
+               "distribution and the stochastic optimum can exceed the mean of the per-scenario optima" % au.short(bad, 70) if bad is not None else "",
+               node=lp, key="one cost block per user sample")
     want = "%s + 1" % n_samples if n_samples else None
     if len(divs) < 2 or want is None:
         ctx.ob("C17.c", slp, "cost divisors", None, "divisions of the cost vectors not found")
